@@ -9,7 +9,7 @@
    every class lemma only needs it of the children.
    Classes with a machine-checked contract: ConstantCostEdit, the component-wise sum (KeyValuePairEdit; XMLElementEdit,
    DataClassEdit, PyObjEdit are the same combinator), repeat_until_tightened + FixedLengthSequenceEdit, EditDistance
-   (StringEdit is a pure delegation to an EditDistance over constant children).
+   (StringEdit is a pure delegation to an EditDistance over constant children), and their arbitrary nesting (C04_lists).
    Classes validated by trace only (holds_C04 on the implementation's recorded traces, no model):
    EditCollection / FixedKeyDictNodeEdit, WeightedBipartiteMatcher, Edge, MultiSetEdit, IterativeTighteningSearch,
    PossibleEdits. *)
@@ -57,9 +57,27 @@ Theorem C04_edit_distance : forall C frc fic p q (kids : list (list (St C))),
             (cc rc ic (map (map (finv C)) kids) (length ic) (length rc)).
 Proof. exact ed_init_contract. Qed.
 
+(* StringEdit = EditDistance over the one-character edits of the two strings *)
+Theorem C04_string : forall s t d, exists v, ContractV true (UM (S d)) (str_state s t) v.
+Proof. exact str_contract. Qed.
+
+(* The closing induction over trees: for every pair of trees whose edit lies in the modelled fragment (initU a b = Some s:
+   scalars, strings, nested lists under all three list options, key/value pairs; mappings are outside), the state s of
+   a.edits(b) satisfies the strict contract on the universal machine, and the executable statement holds on the trace
+   the observer records from it. *)
+Theorem C04_lists : forall a b s, initU a b = Some s -> Contract (UM (sheight s)) s.
+Proof. exact initU_contract. Qed.
+
+Theorem C04_lists_trace : forall a b s, initU a b = Some s ->
+  holds_events (trace_of (UM (sheight s)) (S (S (Z.to_nat (width (bndU s))))) s) = true.
+Proof. exact model_trace_holds. Qed.
+
 Print Assumptions C04_trace.
 Print Assumptions C04_terminates.
 Print Assumptions C04_const.
 Print Assumptions C04_sum.
 Print Assumptions C04_fixed_len.
 Print Assumptions C04_edit_distance.
+Print Assumptions C04_string.
+Print Assumptions C04_lists.
+Print Assumptions C04_lists_trace.
